@@ -18,8 +18,8 @@ from common import coq
 PID = "C27"
 LEVEL_TEXT = ("Machine-checked proof (Coq, closed under the global context) that, on the model of SFTPFile over "
               "BufferedFile over the server handle (with its __tell cache), every sequence of read(n)/read()/"
-              "readline(size)/seek/tell calls on a readable file -- any mode, any buffer size, any content, seeks "
-              "landing on non-negative offsets -- returns exactly the values of the reference binary-file "
+              "readline(size)/seek/tell calls on a readable file -- any mode, any buffer size, any content, incl. "
+              "seeks to negative offsets, which both sides reject -- returns exactly the values of the reference binary-file "
               "semantics (Lib/FileSpec.v) and leaves the contents unchanged (C27_refines_partial); the write / "
               "flush / truncate / readlines paths are NOT proved: they are covered by the three-way differential "
               "run (model == real SFTP == local file on disciplined programs) every run; seven classes of "
@@ -248,6 +248,17 @@ def gen_case(rng, disciplined):
     init = bytes(rng.choice(alphabet) for _ in range(rng.choice([0, 1, 3, 10, 20, rng.randrange(0, 60)])))
     n = rng.choice([1, 2, 3, 5, 8, 12, 20, 40])
     ops = [gen_op(rng, 40) for _ in range(n)]
+    if mode == "a+" and rng.random() < 0.5:
+        # structured pattern aimed at the server handle's cached position: read up to p, append k bytes,
+        # then read again exactly at p + k (where a stale cache would sit)
+        a = rng.randrange(0, max(1, len(init)))
+        nrd = rng.randrange(1, 6)
+        d = bytes(rng.choice(b"ab\n") for _ in range(rng.randrange(1, 5)))
+        got = len(init[a:a + nrd])
+        pat = [("FSeek", a, 0), ("FRead", nrd), ("FSeek", 0, 1), ("FWrite", d), ("FSeek", a + got + len(d), 0),
+               ("FRead", rng.randrange(1, 8)), ("FTell",)]
+        k = rng.randrange(0, len(ops) + 1)
+        ops = ops[:k] + pat + ops[k:]
     if disciplined:
         ops = discipline(ops, mode)
         if mode != "r" and rng.random() < 0.25:
@@ -415,7 +426,7 @@ def run(ctx):
     loop = Loop(ctx.repo)
     try:
         mcases, rcases, kept = [], [], []
-        for j in range(260 * scale):
+        for j in range(600 * scale):
             disciplined = (j % 3 != 0)
             case = gen_case(rng, disciplined)
             mc, rc = evaluate(ctx, loop, case, disciplined)
@@ -429,7 +440,7 @@ def run(ctx):
                 kept.append(case)
             if rc is not None:
                 rcases.append((rc, case))
-        big_cases(ctx, loop, rng, 6 * scale)
+        big_cases(ctx, loop, rng, 8 * scale)
     finally:
         loop.close()
     bad = ctx.model_mismatches("run_c27", "(Z * Z * (bool * list Z) * list fop)", mcases,
